@@ -563,10 +563,18 @@ def translate_esc(ck: Check) -> None:
         ck.notes["esc_translator"] = f"vlib/translate/esc.py failed ({type(e).__name__}: {e}); enumTable checked textually instead"
     rows = ",\n   ".join(f"(Char.ofNat {ord(k)}, {lean_str(v)})" for k, v in enum_table().items())
     want = f"def enumTable : List (Char × List Char) :=\n  [{rows}]\n"
-    have = (LEAN / "Dcg" / "Gen" / "EscTables.lean").read_text()
-    if want not in have:
-        raise RuntimeError("Gen/EscTables.lean does not contain the enum escape table of the current tree and the esc translator cannot regenerate it")
-    ck.gen_files.append("EscTables (enumTable verified textually)")
+    path = LEAN / "Dcg" / "Gen" / "EscTables.lean"
+    have = path.read_text()
+    if want in have:
+        ck.gen_files.append("EscTables (enumTable verified textually)")
+        return
+    import re
+
+    body = have.split("\n", 1)[1] if have.startswith("-- GENERATED") else have
+    patched, n = re.subn(r"def enumTable : List \(Char × List Char\) :=\n  \[.*?\]\n(?=\n)", lambda _m: want, body, count=1, flags=re.S)
+    if n != 1:
+        raise RuntimeError("Gen/EscTables.lean: enumTable definition not found and the esc translator cannot regenerate the file")
+    ck.translate("EscTables", patched)
 
 
 def case_of(w: dict) -> Case:
